@@ -68,6 +68,8 @@ pub struct Comment {
   /// None = suppress everything, Some(ids) = listed ids (may contain unknown ids)
   pub ids: Option<Vec<String>>,
   pub style: usize,
+  /// how the ids are separated: ", " | "," | " , " | " ,"
+  pub sep: usize,
 }
 
 #[derive(Clone, Debug)]
@@ -85,7 +87,7 @@ fn comment_text(spec: &LangSpec, c: &Comment) -> String {
   let (open, close) = spec.comments[c.style % spec.comments.len()];
   let body = match &c.ids {
     None => "ast-grep-ignore".to_string(),
-    Some(ids) => format!("ast-grep-ignore: {}", ids.join(", ")),
+    Some(ids) => format!("ast-grep-ignore: {}", ids.join([", ", ",", " , ", " ,"][c.sep % 4])),
   };
   if close.is_empty() {
     format!("{open} {body}")
@@ -200,7 +202,7 @@ fn gen_comment(spec: &LangSpec, rng: &mut Rng) -> Comment {
     4 => Some(vec!["zz".to_string()]),
     _ => Some(vec![rng.pick(&IDS).to_string(), "zz".to_string()]),
   };
-  Comment { ids, style: rng.below(spec.comments.len()) }
+  Comment { ids, style: rng.below(spec.comments.len()), sep: if rng.chance(1, 2) { 0 } else { rng.below(4) } }
 }
 
 /// which multi-line spellings the rules of this language really match (checked once by running them)
@@ -222,7 +224,7 @@ pub fn ml_capabilities(spec: &LangSpec) -> MlCap {
       let mut lines = vec![Line { ml: 1, stmts: vec![i], comment: None }];
       if inner {
         // an ordinary comment, not a directive
-        lines.push(Line { ml: 2, stmts: vec![], comment: Some(Comment { ids: None, style: 0 }) });
+        lines.push(Line { ml: 2, stmts: vec![], comment: Some(Comment { ids: None, style: 0, sep: 0 }) });
       }
       lines.push(Line { ml: 3, stmts: vec![], comment: None });
       let src = render(spec, &lines).replace("ast-grep-ignore", "just a note");
@@ -248,7 +250,15 @@ pub fn gen_lines(spec: &LangSpec, rng: &mut Rng, cap: &MlCap) -> Vec<Line> {
   let one_per_line = spec.sep == "\u{0}";
   let mut lines = vec![];
   for _ in 0..n {
-    match rng.below(12) {
+    match rng.below(13) {
+      12 => {
+        // an empty line: a comment above it governs nothing
+        if spec.sep != "\u{0}" {
+          lines.push(Line { ml: 0, stmts: vec![], comment: None });
+        } else {
+          lines.push(Line { ml: 0, stmts: vec![rng.below(4)], comment: None });
+        }
+      }
       10 | 11 => {
         // a statement spread over two or three lines: only comments on their own line can govern it
         let i = rng.below(4);
@@ -287,7 +297,7 @@ fn load(yamls: &[String]) -> Option<Vec<RuleConfig<SupportLang>>> {
 }
 
 fn lines_json(lines: &[Line]) -> Value {
-  Value::Array(lines.iter().map(|l| json!({"ml": l.ml, "stmts": l.stmts, "comment": l.comment.as_ref().map(|c| json!({"ids": c.ids, "style": c.style}))})).collect())
+  Value::Array(lines.iter().map(|l| json!({"ml": l.ml, "stmts": l.stmts, "comment": l.comment.as_ref().map(|c| json!({"ids": c.ids, "style": c.style, "sep": c.sep}))})).collect())
 }
 fn lines_from(v: &Value) -> Vec<Line> {
   v.as_array()
@@ -298,7 +308,7 @@ fn lines_from(v: &Value) -> Vec<Line> {
       stmts: l["stmts"].as_array().unwrap().iter().map(|x| x.as_u64().unwrap() as usize).collect(),
       comment: match &l["comment"] {
         Value::Null => None,
-        c => Some(Comment { ids: c["ids"].as_array().map(|a| a.iter().map(|x| x.as_str().unwrap().to_string()).collect()), style: c["style"].as_u64().unwrap() as usize }),
+        c => Some(Comment { ids: c["ids"].as_array().map(|a| a.iter().map(|x| x.as_str().unwrap().to_string()).collect()), style: c["style"].as_u64().unwrap() as usize, sep: c["sep"].as_u64().unwrap_or(0) as usize }),
       },
     })
     .collect()
